@@ -183,6 +183,15 @@ func genesisChecks(h *harness, rng *rand.Rand, n int) {
 		}
 		writeRaw("broken JSON (junk)", []byte("{"+randomFrom(rng, "abc{}[]:,\" 123", 20)))
 		writeRaw("broken JSON (wrong type)", bytes.Replace(valid, []byte(`"initial_height": `), []byte(`"initial_height": "x`), 1))
+		// not a JSON document: a complete genesis object followed by further content (a second, different object, the
+		// tail of an interrupted rewrite, a stray brace, text, NUL padding): which genesis is meant is undefined
+		other := g
+		other.ChainID = g.ChainID + "-other"
+		other.InitialHeight = g.InitialHeight + 7
+		ob, _ := json.Marshal(other)
+		for _, tail := range [][]byte{ob, append([]byte("\n"), ob...), valid[:len(valid)/2], []byte("}"), []byte("\n}\n"), []byte(" trailing text"), {0}, []byte("\n\x00\x00\x00"), []byte(",{}"), []byte("[]")} {
+			writeRaw("content after the genesis object", append(append([]byte{}, valid...), tail...))
+		}
 		writeRaw("JSON null", []byte("null"))
 		writeRaw("JSON array", []byte("[]"))
 		_ = os.Remove(path)
